@@ -256,6 +256,20 @@ func init() {
 			}
 			return ex.tt.Bool(validUTF8(s))
 		},
+		"(*strings.Builder).copyCheck": noop,
+		"internal/abi.NoEscape":       func(ex *Exec, fn *ssa.Function, a []Value) Value { return a[0] },
+		"(*strings.Builder).String": func(ex *Exec, fn *ssa.Function, a []Value) Value {
+			sv := a[0].(*PtrVal).cell.v.(*StructVal)
+			st := fn.Signature.Recv().Type().(*types.Pointer).Elem().Underlying().(*types.Struct)
+			for i := 0; i < st.NumFields(); i++ {
+				if st.Field(i).Name() == "buf" {
+					b := sv.f[i].v.(*SliceVal)
+					return &StrVal{b: ex.sliceBytesOrNil(b)}
+				}
+			}
+			ex.unsupported("strings.Builder layout")
+			return nil
+		},
 		"time.Now": func(ex *Exec, fn *ssa.Function, a []Value) Value {
 			return ex.zero(fn.Signature.Results().At(0).Type())
 		},
